@@ -22,9 +22,12 @@ import (
 
 // MessageNotHeartbeat occupies id 0 without being the standard heartbeat.
 type MessageNotHeartbeat struct {
-	Type      uint8
-	Autopilot uint8
-	Extra     uint16
+	Type           uint8
+	Autopilot      uint8
+	BaseMode       uint8
+	CustomMode     uint16 // the standard message has a uint32 here: different layout and CRC_EXTRA
+	SystemStatus   uint8
+	MavlinkVersion uint8
 }
 
 func (*MessageNotHeartbeat) GetID() uint32 { return 0 }
@@ -58,6 +61,7 @@ type c16World struct {
 	outV2       bool
 	sources     []hbSource
 	others      int // non-heartbeat frames interleaved
+	tcpPeers    int // peers on one TCP server endpoint, all announcing the same ArduPilot (system 1, component 1)
 }
 
 func (w *c16World) describe() string {
@@ -65,8 +69,8 @@ func (w *c16World) describe() string {
 	for _, h := range w.sources {
 		s = append(s, fmt.Sprintf("(ch%d sys%d comp%d ap%d v2=%v x%d)", h.ch, h.sys, h.comp, h.autopilot, h.v2, h.repeat))
 	}
-	return fmt.Sprintf("dialect=%s version=%d heartbeat=%v period=%v type=%d autopilot=%d streamreq=%v freq=%d channels=%d outV2=%v others=%d sources=%s",
-		w.dialectKind, w.version, w.hbEnabled, w.period, w.sysType, w.apType, w.srEnabled, w.freq, w.nch, w.outV2, w.others, strings.Join(s, " "))
+	return fmt.Sprintf("dialect=%s version=%d heartbeat=%v period=%v type=%d autopilot=%d streamreq=%v freq=%d channels=%d outV2=%v others=%d tcpPeersOnOneEndpoint=%d sources=%s",
+		w.dialectKind, w.version, w.hbEnabled, w.period, w.sysType, w.apType, w.srEnabled, w.freq, w.nch, w.outV2, w.others, w.tcpPeers, strings.Join(s, " "))
 }
 
 func (w *c16World) dialect() *dialect.Dialect {
@@ -109,7 +113,7 @@ func hasStd(d *dialect.Dialect, id uint32, std message.Message) bool {
 
 func TestC16Automatic(t *testing.T) {
 	rec := evid.New(t, "C16", "generated node configurations (heartbeat on/off, period 20-80ms, system/autopilot type, dialect in {common, ardupilotmega, minimal, user dialects with version 0..255 with / without / with a fake HEARTBEAT or REQUEST_DATA_STREAM, none}, stream requests on/off, frequency 1..50, 1..3 channels, v1/v2 output) and histories of incoming heartbeats from generated (channel, system, component, autopilot) sources repeated several times and interleaved with other messages; oracles: heartbeats on every channel with the configured fields, status 4, dialect version, at most elapsed/period+1 of them and at least 2, none when disabled or the dialect lacks the standard message; for each distinct ArduPilot sender exactly the seven data-stream requests (1,2,3,6,10,11,12) at the configured rate addressed to it on its channel only plus one stream-requested event, nothing for other autopilots, other messages or when disabled; non-trivial = >=2 ArduPilot senders on >=2 channels plus a non-ArduPilot sender; distinct by hash of the scenario")
-	rec.Require("hb-enabled", "hb-disabled-or-missing", "sr-enabled-with-ardupilot", "sr-not-applicable", "multi-sender-multi-channel", "user-dialect", "v1-output")
+	rec.Require("hb-enabled", "hb-disabled-or-missing", "sr-enabled-with-ardupilot", "sr-not-applicable", "multi-sender-multi-channel", "user-dialect", "v1-output", "several-channels-one-endpoint")
 	evid.Check(t, rec, evid.N(200, 600), func(t *rapid.T) {
 		w := &c16World{}
 		w.dialectKind = rapid.SampledFrom([]string{"common", "common", "ardupilotmega", "ardupilotmega", "ardupilotmega", "minimal", "user", "user", "user", "user-no-hb", "user-fake-hb", "user-no-rds", "user-fake-rds", "nil"}).Draw(t, "dialect")
@@ -133,6 +137,9 @@ func TestC16Automatic(t *testing.T) {
 			w.sources = append(w.sources, h)
 		}
 		w.others = rapid.IntRange(0, 10).Draw(t, "others")
+		if rapid.IntRange(0, 2).Draw(t, "tcp") == 0 {
+			w.tcpPeers = rapid.IntRange(2, 3).Draw(t, "tcp_peers")
+		}
 		cls, err := runC16(w)
 		if err != nil {
 			evid.ReplayNote("C16", "TestC16Automatic", w.describe()+"\n"+err.Error())
@@ -158,6 +165,11 @@ func runC16(w *c16World) ([]string, error) {
 	for i := range pipes {
 		pipes[i] = sim.NewPipe()
 		endpoints = append(endpoints, gomavlib.EndpointCustom{ReadWriteCloser: pipes[i]})
+	}
+	tcpAddr := ""
+	if w.tcpPeers > 0 {
+		tcpAddr = sim.Addr(sim.FreePort())
+		endpoints = append(endpoints, gomavlib.EndpointTCPServer{Address: tcpAddr})
 	}
 	n := &gomavlib.Node{Endpoints: endpoints, Dialect: d, OutVersion: gomavlib.V1, OutSystemID: nodeSys, OutComponentID: nodeComp,
 		HeartbeatDisable: !w.hbEnabled, HeartbeatPeriod: w.period, HeartbeatSystemType: w.sysType, HeartbeatAutopilotType: w.apType,
@@ -223,6 +235,53 @@ func runC16(w *c16World) ([]string, error) {
 	for _, p := range pipes {
 		p.WaitDrained(bound)
 	}
+	// several channels of ONE endpoint, all carrying the same ArduPilot (system 1, component 1):
+	// each channel is a separate (channel, system, component) and must get its own requests and event
+	var peers []*sim.Peer
+	defer func() {
+		for _, p := range peers {
+			p.Close()
+		}
+	}()
+	for i := 0; i < w.tcpPeers; i++ {
+		p, err := sim.Dial("tcp4", tcpAddr)
+		if err != nil {
+			return nil, fmt.Errorf("BROKEN: dial: %v", err)
+		}
+		peers = append(peers, p)
+		hb := &minimal.MessageHeartbeat{Type: 2, Autopilot: 3, SystemStatus: 4, MavlinkVersion: 3}
+		for r := 0; r < 2; r++ {
+			f := ref.Frame{V2: true, Seq: byte(r), Sys: 1, Comp: 1, ID: 0}
+			f.Payload = hbLay.Encode(hb, true)
+			f.Checksum = f.ChecksumFor(hbLay.CRCExtra)
+			p.Send(f.Bytes()) //nolint:errcheck
+		}
+	}
+	if w.tcpPeers > 0 {
+		deadline := time.Now().Add(bound)
+		for srActive && time.Now().Before(deadline) {
+			ok := true
+			for _, p := range peers {
+				fs, _ := parseStreamLoose(p.Received())
+				nreq := 0
+				for _, f := range fs {
+					if f.ID == 66 {
+						nreq++
+					}
+				}
+				if nreq < 7 {
+					ok = false
+				}
+			}
+			if ok {
+				break
+			}
+			time.Sleep(2 * time.Millisecond)
+		}
+		if !srActive {
+			time.Sleep(10 * time.Millisecond)
+		}
+	}
 	// wait for the expected stream requests and heartbeats
 	wantReq := make([]int, w.nch)
 	if srActive {
@@ -285,6 +344,10 @@ func runC16(w *c16World) ([]string, error) {
 			return nil, fmt.Errorf("channel %d: %v", c, err)
 		}
 		snaps[c] = snap{hbs, reqs, others}
+	}
+	peerRx := make([][]byte, len(peers))
+	for i, p := range peers {
+		peerRx[i] = p.Received()
 	}
 	recs := rec.Snapshot()
 	closeNode(n, bound) //nolint:errcheck
@@ -355,8 +418,38 @@ func runC16(w *c16World) ([]string, error) {
 			}
 		}
 	}
+	// the TCP peers: each must have got exactly the seven requests (or nothing when not applicable)
+	peerLabels := map[string]bool{}
+	for i, p := range peers {
+		peerLabels[p.LocalLabel(false)] = true
+		fs, _ := parseStreamLoose(peerRx[i])
+		var ids []int
+		for _, f := range fs {
+			if f.ID != 66 {
+				continue
+			}
+			v, err := rdsLay.Decode(f.Payload, f.V2)
+			if err != nil {
+				return nil, fmt.Errorf("tcp peer %d: stream request does not decode: %v", i, err)
+			}
+			r := v.(*common.MessageRequestDataStream)
+			if r.TargetSystem != 1 || r.TargetComponent != 1 || int(r.ReqMessageRate) != w.freq || r.StartStop != 1 {
+				return nil, fmt.Errorf("tcp peer %d: stream request %+v, expected target 1/1 rate %d", i, *r, w.freq)
+			}
+			ids = append(ids, int(r.ReqStreamId))
+		}
+		sort.Ints(ids)
+		want := "[1 2 3 6 10 11 12]"
+		if !srActive {
+			want = "[]"
+		}
+		if fmt.Sprint(ids) != want {
+			return nil, fmt.Errorf("tcp peer %d of %d on the same endpoint (each announcing ArduPilot system 1 component 1 on its own channel) got stream requests %v, want %s", i, len(peers), ids, want)
+		}
+	}
 	// events
 	evs := map[key]int{}
+	peerEvents := map[*gomavlib.Channel]int{}
 	for _, r := range recs {
 		if e, ok := r.Ev.(*gomavlib.EventStreamRequested); ok {
 			ci := -1
@@ -364,6 +457,13 @@ func runC16(w *c16World) ([]string, error) {
 				if ch == e.Channel {
 					ci = i
 				}
+			}
+			if ci < 0 && peerLabelsHas(peers, e.Channel.String()) {
+				if e.SystemID != 1 || e.ComponentID != 1 {
+					return nil, fmt.Errorf("stream-requested event for system %d component %d on a tcp peer channel", e.SystemID, e.ComponentID)
+				}
+				peerEvents[e.Channel]++
+				continue
 			}
 			evs[key{ci, e.SystemID, e.ComponentID}]++
 		}
@@ -380,8 +480,23 @@ func runC16(w *c16World) ([]string, error) {
 			}
 		}
 	}
+	wantPeerEvents := 0
+	if srActive {
+		wantPeerEvents = len(peers)
+	}
+	if len(peerEvents) != wantPeerEvents {
+		return nil, fmt.Errorf("%d tcp peer channels got a stream-requested event, want %d (one per channel)", len(peerEvents), wantPeerEvents)
+	}
+	for _, c := range peerEvents {
+		if c != 1 {
+			return nil, fmt.Errorf("%d stream-requested events for one tcp peer channel", c)
+		}
+	}
 	// classes
 	var cls []string
+	if len(peers) > 0 && srActive {
+		cls = append(cls, "several-channels-one-endpoint")
+	}
 	if hbExpected {
 		cls = append(cls, "hb-enabled")
 	} else {
@@ -413,4 +528,28 @@ func runC16(w *c16World) ([]string, error) {
 		cls = append(cls, "v1-output")
 	}
 	return cls, nil
+}
+
+
+func peerLabelsHas(peers []*sim.Peer, label string) bool {
+	for _, p := range peers {
+		if p.LocalLabel(false) == label {
+			return true
+		}
+	}
+	return false
+}
+
+// parseStreamLoose parses as many whole frames as the (possibly still growing) stream holds.
+func parseStreamLoose(b []byte) ([]ref.Frame, []byte) {
+	var out []ref.Frame
+	for len(b) > 0 {
+		f, n, err := ref.Parse(b)
+		if err != nil {
+			break
+		}
+		out = append(out, f)
+		b = b[n:]
+	}
+	return out, b
 }
